@@ -22,10 +22,27 @@
     invariant SMA / StDev states (`C05_bollinger_step`; the bands are centre ± sigma·sqrt(variance), sqrt not modelled).
   * Money-flow: the source's `1 − 1/(1 + pmf/nmf)` is `pmf/(pmf+nmf)` (`C05_mfi_formula`).
   * Parabolic SAR: the returned pair is the state after the flip test (`C05_sar_values`).
-  Partial: Stochastic, Keltner, Envelopes, Ichimoku, CMF, TSI/SMI value theorems over whole
-  histories are not written (those models are validated by the correspondence run only); floats are outside.
+  * Stochastic: the k-row is `(close − lo)/(hi − lo)` (½ on an empty range) of a greatest high / least low of the last
+    `period` candles, the two lines are the realised averages of it, stacked (`C05_stochastic_step`).
+  * Keltner: `[source, f(sources) ± σ·mean(last n true ranges)]` (`C05_keltner_step`).
+  * Ichimoku: tenkan / kijun are mid-points of the extremes over `l1` / `l2` candles, the spans are the mid-points formed
+    `m` steps earlier, from the constructor's invariant (`C05_ichimoku_init`, `C05_ichimoku_step`).
+  * Chaikin money flow: Σ CLV·volume / Σ volume over the last `size` candles (`C05_cmf_step`).
+  * Money-flow index: the flows are the sums over the last `period` candles of the volumes of candles whose typical price
+    rose / fell against the previous candle; value `pmf/(pmf+nmf)`, ½ without negative flow (`C05_mfi_step`, `C05_mfi_init`).
+  * ADX: averaged true range; directional movements against the candle `period1` steps back averaged and divided by it;
+    the index is the average of |+DI − −DI|/(+DI + −DI); nothing but the true-range average moves while it is zero
+    (`C05_adx_step`).
+  Partial: Envelopes, TSI/SMI and the tier-2 indicators' value theorems over whole histories are not written (those
+  models are validated by the correspondence run only); floats are outside.
 -/
 import YataProofs.Indicators.More
+import YataProofs.Indicators.Stoch
+import YataProofs.Indicators.Ichi
+import YataProofs.Indicators.ADX
+import YataProofs.Indicators.Keltner
+import YataProofs.Indicators.CMFRange
+import YataProofs.Indicators.MFIRange
 namespace Yata.C05
 open Yata Yata.Ind
 
@@ -97,6 +114,80 @@ theorem C05_mfi_formula (p n : ℚ) (hp : 0 ≤ p) (hn : 0 < n) : 1 - 1 / (1 + p
 theorem C05_sar_values (s : SAR) (k : Candle ℚ) :
     ((s.next k).1.1.map VExp.value) = [(SAR.afterFlip s k).sar, ((SAR.afterFlip s k).trend : ℚ)] := SAR.next_values s k
 
+theorem C05_stochastic_step {P : Nat} {g1 g2 : List ℚ → ℚ} {highs lows krs f1s : List ℚ} {s : Stoch} (k : Candle ℚ)
+    (h : Stoch.Inv P g1 g2 highs lows krs f1s s) :
+    ∃ hi lo v s', s.vals k none = .ok (v, s') ∧
+      IsMaxOf hi (lastN s.cfg.period (highs ++ [k.high])) ∧ IsMinOf lo (lastN s.cfg.period (lows ++ [k.low])) ∧
+      (let kr := Stoch.kRows k.close hi lo
+       let f1 := g1 (krs ++ [kr])
+       v.map VExp.value = [f1, g2 (f1s ++ [f1])] ∧
+       Stoch.Inv P g1 g2 (highs ++ [k.high]) (lows ++ [k.low]) (krs ++ [kr]) (f1s ++ [f1]) s') ∧ s'.cfg = s.cfg :=
+  Stoch.vals_spec k h
+
+theorem C05_keltner_step {P : Nat} {f : List ℚ → ℚ} {srcs hist : List ℚ} {s : Keltner} (k : Candle ℚ)
+    (h : Keltner.Inv P hist s) (hr : Realises f s.ma srcs) (hv : k.low ≤ k.high) :
+    let x := k.source s.cfg.source
+    let trs := hist ++ [k.trClose s.prev_close]
+    let atr := Spec.mean s.cfg.ma.length (lastN s.cfg.ma.length trs)
+    ∃ v s', s.vals k = .ok (v, s') ∧
+      v.map VExp.value = [x, atr * s.cfg.sigma + f (srcs ++ [x]), atr * (-s.cfg.sigma) + f (srcs ++ [x])] ∧
+      Keltner.Inv P trs s' ∧ Realises f s'.ma (srcs ++ [x]) ∧ s'.prev_close = k.close ∧ s'.cfg = s.cfg :=
+  Keltner.vals_spec k h hr hv
+
+theorem C05_ichimoku_init {P : Nat} (c : IchiCfg) (k : Candle ℚ) (h1 : 0 < c.l1) (h12 : c.l1 < c.l2) (h23 : c.l2 < c.l3)
+    (h3 : c.l3 ≤ P - 1) (hm0 : 0 < c.m) (hm : c.m < P) :
+    ∃ s, Ichi.init P c k = .ok s ∧ s.cfg = c ∧
+      Ichi.Inv P (List.replicate c.l3 k.high) (List.replicate c.l3 k.low) (List.replicate c.m k.hl2)
+        (List.replicate c.m k.hl2) s := Ichi.init_inv c k h1 h12 h23 h3 hm0 hm
+
+theorem C05_ichimoku_step {P : Nat} {highs lows as bs : List ℚ} {s : Ichi} (k : Candle ℚ) (h : Ichi.Inv P highs lows as bs s) :
+    ∃ a e b f d g spanA spanB s',
+      s.vals k = .ok ([.price ((a + e) * half) 1, .price ((b + f) * half) 1, .price spanA 1, .price spanB 1], s') ∧
+      IsMaxOf a (lastN s.cfg.l1 (highs ++ [k.high])) ∧ IsMinOf e (lastN s.cfg.l1 (lows ++ [k.low])) ∧
+      IsMaxOf b (lastN s.cfg.l2 (highs ++ [k.high])) ∧ IsMinOf f (lastN s.cfg.l2 (lows ++ [k.low])) ∧
+      IsMaxOf d (lastN s.cfg.l3 (highs ++ [k.high])) ∧ IsMinOf g (lastN s.cfg.l3 (lows ++ [k.low])) ∧
+      (lastN s.cfg.m as).head? = some spanA ∧ (lastN s.cfg.m bs).head? = some spanB ∧
+      Ichi.Inv P (highs ++ [k.high]) (lows ++ [k.low]) (as ++ [((a + e) * half + (b + f) * half) * half])
+        (bs ++ [(d + g) * half]) s' ∧ s'.cfg = s.cfg := Ichi.vals_spec k h
+
+theorem C05_cmf_step {P : Nat} {hist : List (Candle ℚ)} {s : CMF} (k : Candle ℚ) (h : CMF.Inv P hist s) (hk : goodCandle k) :
+    ∃ num den s', s.vals k = .ok ([.quot num den (s.size : ℚ) (s.size : ℚ) .vol [] none], s') ∧
+      CMF.Inv P (hist ++ [k]) s' ∧ s'.size = s.size ∧
+      num = ((lastN s.size (hist ++ [k])).map fun c => c.clv * c.volume).sum ∧
+      den = ((lastN s.size (hist ++ [k])).map fun c => c.volume).sum := by
+  obtain ⟨num, den, s', h1, h2, h3, h4, h5, _⟩ := CMF.vals_spec k h hk
+  exact ⟨num, den, s', h1, h2, h3, h4, h5⟩
+
+theorem C05_mfi_init {P period : Nat} (zone : ℚ) (k : Candle ℚ) (s : MFI) (h : MFI.init P period zone k = .ok s) :
+    MFI.Inv P k (List.replicate period k) s ∧ s.period = period ∧ s.zone = zone := MFI.init_inv zone k s h
+
+/-- `MFI.Inv` says `pmf` / `nmf` are the sums of `MFI.flows` over the last `period` candles -/
+theorem C05_mfi_step {P : Nat} {c0 : Candle ℚ} {H : List (Candle ℚ)} {s : MFI} (k : Candle ℚ) (h : MFI.Inv P c0 H s)
+    (hk : 0 ≤ k.volume) :
+    ∃ v s', s.vals k = .ok ([.exact (1 - s.zone), v, .exact s.zone], s') ∧ MFI.Inv P c0 (H ++ [k]) s' ∧
+      v.value = (if s'.nmf = 0 then half else s'.pmf / (s'.pmf + s'.nmf)) := by
+  obtain ⟨v, s', h1, h2, _, _, _, h3, _⟩ := MFI.vals_spec k h hk
+  exact ⟨v, s', h1, h2, h3⟩
+
+theorem C05_adx_step {P n : Nat} {gT gP gM gA : List ℚ → ℚ} {cs : List (Candle ℚ)} {trs pdms mdms ts : List ℚ} {s : ADX}
+    (k : Candle ℚ) (h : ADX.Inv P n gT gP gM gA cs trs pdms mdms ts s) :
+    ∃ prev, (lastN n cs).head? = some prev ∧
+    let trs' := trs ++ [k.trClose s.prev_close]
+    let tr := gT trs'
+    (tr = 0 →
+      ∃ v s', s.vals k none = .ok (v, s', true) ∧ v.map VExp.value = [gA (ts ++ [0]), 0, 0] ∧
+        s'.prev_close = s.prev_close ∧ ADX.Inv P n gT gP gM gA (cs ++ [k]) trs' pdms mdms (ts ++ [0]) s') ∧
+    (tr ≠ 0 →
+      let pv := gP (pdms ++ [ADX.pdm k prev])
+      let mv := gM (mdms ++ [ADX.mdm k prev])
+      let plus := pv / tr
+      let minus := mv / tr
+      let t := if plus + minus = 0 then 0 else |plus - minus| / (plus + minus)
+      ∃ v s', s.vals k none = .ok (v, s', false) ∧ v.map VExp.value = [gA (ts ++ [t]), plus, minus] ∧
+        s'.prev_close = k.close ∧
+        ADX.Inv P n gT gP gM gA (cs ++ [k]) trs' (pdms ++ [ADX.pdm k prev]) (mdms ++ [ADX.mdm k prev]) (ts ++ [t]) s') :=
+  ADX.vals_spec k h
+
 /-! non-vacuity: a reachable MACD state satisfies the invariant (both default averages are EMAs) -/
 example : ∃ m, MA.init 255 { kind := .ema, length := 12 } (100 : ℚ) = .ok m ∧
     Realises (fun h => Spec.emaRec (((2 : Nat) : ℚ) / ((12 + 1 : Nat) : ℚ)) 100 h) m [] :=
@@ -115,3 +206,11 @@ end Yata.C05
 #print axioms Yata.C05.C05_sar_values
 #print axioms Yata.C05.C05_aroon_step
 #print axioms Yata.C05.C05_bollinger_step
+#print axioms Yata.C05.C05_stochastic_step
+#print axioms Yata.C05.C05_keltner_step
+#print axioms Yata.C05.C05_ichimoku_init
+#print axioms Yata.C05.C05_ichimoku_step
+#print axioms Yata.C05.C05_cmf_step
+#print axioms Yata.C05.C05_mfi_init
+#print axioms Yata.C05.C05_mfi_step
+#print axioms Yata.C05.C05_adx_step
